@@ -55,6 +55,21 @@ class Cx:
         self.facts = facts
         self.config = config
         self._graphs = {}
+        # the private object-safe twin of Subscription (BoxSubscriptionInner today), whatever it and its methods are called: a trait
+        # of subscription.rs with a `Box<Self> -> ()` method (unsubscribe) and a `&Self -> bool` method (is_closed)
+        try:
+            for p_, t_ in facts.traits.items():
+                if not p_.startswith('subscription::') or p_ == 'subscription::Subscription':
+                    continue
+                for m_ in t_.get('methods', []):
+                    ins = [facts.tystr(i_) for i_ in m_.get('inputs', [])]
+                    out = facts.tystr(m_['output']) if m_.get('output') is not None else None
+                    if len(ins) == 1 and ins[0].startswith('std::boxed::Box<') and out == '()':
+                        UNSUB_NAMES.add('%s::%s' % (p_, m_['n']))
+                    elif len(ins) == 1 and ins[0] == '&Self' and out == 'bool':
+                        IS_CLOSED_NAMES.add('%s::%s' % (p_, m_['n']))
+        except Exception:
+            pass
 
     def graph(self, key, **kw):
         k = (key, tuple(sorted(kw.items())))
